@@ -1,5 +1,5 @@
 // C17: fixed workspaces of the correspondence leg c17.filter (generated once from scratch files; edit by hand).
-// w1 triggers diagnostic types 1-23, 26, 28, 29; w2 is shaped after the examples of docs/manual/config.md.
+// w1 triggers diagnostic types 1-23, 26, 28, 29; w2 is shaped after the examples of docs/manual/config.md; w3 adds type 24.
 // No global is defined in two files (C09 order dependence) and no file name is a substring / regexp match of
 // another one (the raw oracle ignores files by their literal names). w2 has the folders c+v (a valid regexp that does not
 // match its own text) and c++ (not a regexp at all), so that the literal strings.Contains half of every rule matters.
@@ -156,6 +156,55 @@ local tunused = 1
 tm.x = tundef
 tm.y = tm.x and false
 return tm
+`,
+	},
+	// w3: for the settings-change route: call parameter COUNT (type 10) next to call parameter TYPE (type 24: the annotated
+	// function is a global called from inside another function - that is where the cross-file passes compare the annotated
+	// parameter types), plus 2, 4, 9, 15, 16. rets.lua is an attempt at types 25 / 27 (return type, operand types) that the
+	// server does not report; it stays as an ordinary file.
+	"w3": {
+		"calls/ptype.lua": `---@param n number
+function takesNumber(n)
+	return n
+end
+
+function takesOne(a)
+	return a
+end
+
+function caller()
+	takesNumber("text")
+	takesOne(1, 2)
+end
+
+local x3 = takesOne(1)
+local p3 = x3 or true
+local q3 = x3 and false
+print(p3, q3)
+`,
+		"rets.lua": `---@return number
+function retsNumber()
+	return "text"
+end
+
+---@param k number
+---@return number
+function binopUser(k)
+	local s3 = "a" + k
+	---@type string
+	local w3 = "b"
+	local u3 = k + w3
+	return s3, u3
+end
+
+function callsRets()
+	local r3 = retsNumber()
+	return binopUser(r3)
+end
+local unused3 = callsRets()
+`,
+		"top.lua": `local t3 = undefined3
+goto nolabel3
 `,
 	},
 }
